@@ -129,6 +129,9 @@ def handleRewards (st : IssueSt) : List String → Option (IssueSt × String)
   | ["chk", "c20.rwblock", _tag, h, minted, cur] => do
       let h ← parseNat h; let minted ← parseNat minted; let cur ← parseCur cur
       some (st, toString (Sif.Spec.C20.rewardsBlockOK cur h minted))
+  | ["chk", "c20.rwaccount", _tag, created, paid, pooled, modDelta] => do
+      let created ← parseNat created; let paid ← parseNat paid; let pooled ← parseNat pooled; let modDelta ← parseNat modDelta
+      some (st, toString (Sif.Spec.C20.rewardsAccountedOK created paid pooled modDelta))
   | ["chk", "c20.rwperiod", _tag, a, b, c, d, total] => do
       let a ← parseNat a; let b ← parseNat b; let c ← parseNat c; let d ← parseNat d; let total ← parseNat total
       some (st, toString (Sif.Spec.C20.rewardsPeriodOK ⟨a, b, c, d⟩ total))
